@@ -93,3 +93,14 @@ MUTANTS["C07"] = [
     ("pixelscale_check_row_only", "lentil/plane.py", "if a_pixelscale[0] == b_pixelscale[0] and a_pixelscale[1] == b_pixelscale[1]:", "if a_pixelscale[0] == b_pixelscale[0]:"),
     ("wavelength_in_place", "lentil/plane.py", "        out = lentil.Wavefront.empty(wavelength=wavefront.wavelength,", "        out = lentil.Wavefront.empty(wavelength=wavefront.wavelength*(1+1e-9),"),
 ]
+MUTANTS["C08"] = [
+    ("cell_image_tilt", "lentil/plane.py", "        lentil.tilt: lentil.image,\n", "        lentil.tilt: lentil.pupil,\n"),
+    ("cell_none_tilt", "lentil/plane.py", "        lentil.tilt: lentil.none,\n", "        lentil.tilt: lentil.pupil,\n"),
+    ("cell_pupil_image_allowed", "lentil/plane.py", "    lentil.pupil: {\n        lentil.pupil: lentil.pupil,\n", "    lentil.pupil: {\n        lentil.pupil: lentil.pupil,\n        lentil.image: lentil.image,\n"),
+    ("propagate_keeps_type", "lentil/propagate.py", "        if ptype == lentil.pupil:\n            return lentil.image\n        else:\n            return lentil.pupil", "        return ptype"),
+    ("image_not_forced", "lentil/plane.py", "        wavefront = super().multiply(wavefront)\n        wavefront.ptype = lentil.image\n", "        wavefront = super().multiply(wavefront)\n"),
+    ("ptype_eq_identity", "lentil/ptype.py", "        if self._key == other._key:", "        if self is other:"),
+    ("fft_no_type_check", "lentil/propagate.py", "    ptype_out = _propagate_ptype(wavefront.ptype, method='fraunhofer')\n    pixelscale = np.broadcast_to(pixelscale, (2,))", "    ptype_out = lentil.image if wavefront.ptype != lentil.image else lentil.pupil\n    pixelscale = np.broadcast_to(pixelscale, (2,))"),
+    ("refusal_valueerror", "lentil/plane.py", "            raise TypeError(f\"can't multiply Wavefront with ptype \" \\", "            raise ValueError(f\"can't multiply Wavefront with ptype \" \\"),
+    ("tilt_mutates_input", "lentil/plane.py", "        wavefront = super().multiply(wavefront)\n        for field in wavefront.data:\n            field.tilt.append(self)\n        return wavefront", "        for field in wavefront.data:\n            field.tilt.append(self)\n        wavefront = super().multiply(wavefront)\n        return wavefront"),
+]
